@@ -30,6 +30,10 @@ THEOREMS = [
     ("DSP.C16", "C16_never_ood"),          # the 16 string/range commands never panic
     ("DSP.C18", "C18_join_total"),         # join_path's script loop terminates (on C09-safe arguments)
     ("DSP.C19", "C19_leak_check_never_fires"),
+    ("DSP.C12", "C12_nopanic"),            # native collection commands: value / none / error, never a panic or out-of-fuel
+    ("DSP.C12", "C12_release_total"),      # recursive release terminates on every store, cyclic ones included
+    ("DSP.C17", "C17_json_fuel"),          # json collection round trip never runs out of fuel on allocator-built stores
+    ("DSP.C14", "C14_fuel"),               # include parsing: any fuel above the tree depth gives the same result (acyclic trees)
 ]
 EXCLUDED = ("read sleep exec spawn exit quit q watchdog http_client wget ftp_get ftp_get_in_memory ftp_list ftp_nlst "
             "ftp_put ftp_put_in_memory hostname cd set_current_dir set_current_directory cp cp_glob glob_cp mv rm rmdir mkdir "
